@@ -9,7 +9,7 @@ re-partitioning the flat content at symbolic cut points (empty sub-lists include
 """
 from boltons.queueutils import HeapPriorityQueue, SortedPriorityQueue
 from boltons.listutils import BarrelList
-from vf.rt import K, cz, pin, pinval, assume, fail, done, notrace, labels, order_labels
+from vf.rt import internal, K, cz, pin, pinval, assume, fail, done, notrace, labels, order_labels
 from vf.check import Ob
 
 PROPERTY = 'C10'
@@ -178,18 +178,18 @@ def _script_body(n, none0, layout, c1, c2, script, ranks):
     if none0 and n:
         ps[0] = None
     hq, sq = HeapPriorityQueue(), SortedPriorityQueue()
-    if layout == 0 and isinstance(sq._pq, BarrelList):
-        sq._pq._size_factor = 1
+    if layout == 0 and isinstance(internal(sq, '_pq'), BarrelList):
+        internal(internal(sq, '_pq'), '_size_factor'); sq._pq._size_factor = 1
     M = Model()
     qs = [hq, sq]
     for i in range(n):
         cl = step(qs, M, 'add_new', i, ps[i])
         if cl:
             return fail('pre_' + cl)
-    if layout == 1 and isinstance(sq._pq, BarrelList):
+    if layout == 1 and isinstance(internal(sq, '_pq'), BarrelList):
         flat = list(sq._pq)
-        sq._pq.lists[:] = [flat[:c1], flat[c1:c2], flat[c2:]]
-    multi = isinstance(sq._pq, BarrelList) and len(sq._pq.lists) > 1
+        internal(sq._pq, 'lists')[:] = [flat[:c1], flat[c1:c2], flat[c2:]]
+    multi = isinstance(internal(sq, '_pq'), BarrelList) and len(sq._pq.lists) > 1
     names = []
     for name, t, q in script:
         if name in ('add_new', 'readd'):
@@ -207,7 +207,7 @@ def _script_body(n, none0, layout, c1, c2, script, ranks):
 # ---- removal-heavy histories: n adds with pairwise distinct symbolic priorities, then any subset removed
 def _removals_body(n, ranks, mask, readd):
     hq, sq = HeapPriorityQueue(), SortedPriorityQueue()
-    sq._pq._size_factor = 1
+    internal(internal(sq, '_pq'), '_size_factor'); sq._pq._size_factor = 1
     M = Model()
     qs = [hq, sq]
     for i in range(n):
@@ -277,6 +277,7 @@ def barrel_vs_list(n: int, c1: int, c2: int, op: int, i: int, sf: int) -> bool:
         ref = list(range(100, 100 + n))
         bl = BarrelList()
         if sf:
+            internal(bl, '_size_factor')
             bl._size_factor = 1
         bl.lists[:] = [ref[:c1], ref[c1:c2], ref[c2:]]
         name = ['insert', 'pop', 'getitem', 'delitem', 'index', 'setitem'][op]
